@@ -109,30 +109,93 @@ theorem layer_bound {n inf : Nat} (d : Nat → Nat)
   simp at this
   omega
 
+/-! ## counting infinite labels (for the fuel bound) -/
+
+/-- the keys of the `dist` dictionary: NIL and the vertices of `U` -/
+def validX (g : BGraph) : List (Option Nat) := none :: (List.range g.numU).map some
+
+theorem validX_nodup (g : BGraph) : (validX g).Nodup := by
+  unfold validX
+  rw [List.nodup_cons]
+  refine ⟨by simp, ?_⟩
+  exact List.Nodup.map (fun a b h => by cases h; rfl) List.nodup_range
+
+theorem length_validX (g : BGraph) : (validX g).length = g.numU + 1 := by simp [validX]
+
+theorem mem_validX {g : BGraph} {x : Option Nat} : x ∈ validX g ↔ ∀ u, x = some u → u < g.numU := by
+  unfold validX
+  cases x with
+  | none => simp
+  | some w => simp
+
+/-- number of keys with label `inf` -/
+def cntInf (g : BGraph) (s : HK) : Nat := (validX g).countP (fun x => s.dist x == infDist g)
+
+theorem cntInf_le (g : BGraph) (s : HK) : cntInf g s ≤ g.numU + 1 := by
+  unfold cntInf
+  have := List.countP_le_length (p := fun x => s.dist x == infDist g) (l := validX g)
+  rw [length_validX] at this
+  exact this
+
+theorem countP_flip {α} (p p' : α → Bool) : ∀ (V : List α), V.Nodup → ∀ x ∈ V, p x = false → p' x = true →
+    (∀ y, p y = true → p' y = true) → V.countP p + 1 ≤ V.countP p' := by
+  intro V
+  induction V with
+  | nil => intro _ x hx; cases hx
+  | cons a V ih =>
+    intro hnd x hx hp hp' himp
+    rw [List.nodup_cons] at hnd
+    have hmono : V.countP p ≤ V.countP p' := List.countP_mono_left (fun y _ hy => himp y hy)
+    rcases List.mem_cons.1 hx with rfl | hx
+    · rw [List.countP_cons_of_neg (by simp [hp]), List.countP_cons_of_pos hp']
+      omega
+    · have := ih hnd.2 x hx hp hp' himp
+      by_cases hpa : p a = true
+      · rw [List.countP_cons_of_pos hpa, List.countP_cons_of_pos (himp a hpa)]
+        omega
+      · rw [List.countP_cons_of_neg hpa]
+        by_cases hpa' : p' a = true
+        · rw [List.countP_cons_of_pos hpa']; omega
+        · rw [List.countP_cons_of_neg hpa']; omega
+
+theorem countP_mono_imp {α} (p p' : α → Bool) (V : List α) (himp : ∀ y, p y = true → p' y = true) :
+    V.countP p ≤ V.countP p' := List.countP_mono_left (fun y _ hy => himp y hy)
+
 /-! ## the neighbour loop -/
 
 /-- effect of the loop `for v in adj_u[u]` of the BFS (`d0 = dist[u]`) -/
-structure NbPost (g : BGraph) (d0 : Nat) (s : HK) (q : List (Option Nat)) (s' : HK) (q' : List (Option Nat)) :
-    Prop where
+structure NbPost (g : BGraph) (d0 : Nat) (vs : List Nat) (s : HK) (q : List (Option Nat)) (s' : HK)
+    (q' : List (Option Nat)) : Prop where
   mu : s'.mu = s.mu
   mv : s'.mv = s.mv
   len : s'.du.length = s.du.length
   keep : ∀ x, s.dist x ≠ infDist g → s'.dist x = s.dist x
   new : ∀ x, s.dist x = infDist g → s'.dist x = infDist g ∨ (s'.dist x = d0 + 1 ∧ x ∈ q')
+  newAdj : ∀ x, s.dist x = infDist g → s'.dist x ≠ infDist g → ∃ v ∈ vs, s.mateV v = x
   sub : ∀ x ∈ q, x ∈ q'
+  qlen : q'.length + cntInf g s' ≤ q.length + cntInf g s
+
+theorem mateV_valid {g : BGraph} {s : HK} (hinv : MInv g s.mu s.mv) (v : Nat) : s.mateV v ∈ validX g := by
+  rw [mem_validX]
+  intro u' hu'
+  have := (hinv.iff u' v).2 (by simpa using hu')
+  have hlt := lt_length_of_getD_some this
+  rw [hinv.lenU] at hlt
+  exact hlt
 
 theorem bfsNeighbours_post (g : BGraph) (u d0 : Nat) (hd : d0 + 1 < infDist g) :
-    ∀ (vs : List Nat) (s : HK) (q : List (Option Nat)), s.dist (some u) = d0 →
-      NbPost g d0 s q (bfsNeighbours g u vs s q).1 (bfsNeighbours g u vs s q).2 ∧
+    ∀ (vs : List Nat) (s : HK) (q : List (Option Nat)), MInv g s.mu s.mv → s.dist (some u) = d0 →
+      NbPost g d0 vs s q (bfsNeighbours g u vs s q).1 (bfsNeighbours g u vs s q).2 ∧
       ∀ v ∈ vs, (bfsNeighbours g u vs s q).1.dist (s.mateV v) ≠ infDist g := by
   intro vs
   induction vs with
   | nil =>
-    intro s q _
+    intro s q _ _
     rw [bfsNeighbours]
-    exact ⟨⟨rfl, rfl, rfl, fun _ _ => rfl, fun _ h => Or.inl h, fun _ h => h⟩, fun v hv => by cases hv⟩
+    exact ⟨⟨rfl, rfl, rfl, fun _ _ => rfl, fun _ h => Or.inl h, fun _ h h' => absurd h h', fun _ h => h,
+      Nat.le_refl _⟩, fun v hv => by cases hv⟩
   | cons v vs ih =>
-    intro s q hu
+    intro s q hinv hu
     rw [bfsNeighbours]
     by_cases hx : s.dist (s.mateV v) = infDist g
     · simp only [hx, if_true]
@@ -142,8 +205,21 @@ theorem bfsNeighbours_post (g : BGraph) (u d0 : Nat) (hd : d0 + 1 < infDist g) :
         rw [dist_setDist_ne _ _ hxu, hu]
       have hs1x : (s.setDist (s.mateV v) (s.dist (some u) + 1)).dist (s.mateV v) = d0 + 1 := by
         rw [dist_setDist_self _ _ (by rw [hx]; exact infDist_pos g), hu]
-      obtain ⟨post, hcl⟩ := ih (s.setDist (s.mateV v) (s.dist (some u) + 1)) (q ++ [s.mateV v]) hs1u
-      refine ⟨⟨?_, ?_, ?_, ?_, ?_, ?_⟩, ?_⟩
+      have hinv1 : MInv g (s.setDist (s.mateV v) (s.dist (some u) + 1)).mu
+          (s.setDist (s.mateV v) (s.dist (some u) + 1)).mv := by simpa using hinv
+      obtain ⟨post, hcl⟩ := ih (s.setDist (s.mateV v) (s.dist (some u) + 1)) (q ++ [s.mateV v]) hinv1 hs1u
+      have hmate1 : ∀ v', (s.setDist (s.mateV v) (s.dist (some u) + 1)).mateV v' = s.mateV v' := by
+        intro v'; simp
+      have hcnt : cntInf g (s.setDist (s.mateV v) (s.dist (some u) + 1)) + 1 ≤ cntInf g s := by
+        unfold cntInf
+        apply countP_flip _ _ _ (validX_nodup g) (s.mateV v) (mateV_valid hinv v)
+        · rw [hs1x]; simp; omega
+        · rw [hx]; simp
+        · intro y hy
+          by_cases hyx : y = s.mateV v
+          · subst hyx; rw [hs1x] at hy; simp at hy; omega
+          · rw [dist_setDist_ne s _ hyx] at hy; exact hy
+      refine ⟨⟨?_, ?_, ?_, ?_, ?_, ?_, ?_, ?_⟩, ?_⟩
       · rw [post.mu]; simp
       · rw [post.mv]; simp
       · rw [post.len, setDist_du_length]
@@ -159,19 +235,32 @@ theorem bfsNeighbours_post (g : BGraph) (u d0 : Nat) (hd : d0 + 1 < infDist g) :
           rw [post.keep _ (by rw [hs1x]; omega), hs1x]
         · have h1 := dist_setDist_ne s (s.dist (some u) + 1) hyx
           exact post.new y (by rw [h1]; exact hy)
+      · intro y hy hy'
+        by_cases hyx : y = s.mateV v
+        · exact ⟨v, List.mem_cons_self .., hyx.symm⟩
+        · have h1 := dist_setDist_ne s (s.dist (some u) + 1) hyx
+          obtain ⟨v', hv', h2⟩ := post.newAdj y (by rw [h1]; exact hy) hy'
+          exact ⟨v', List.mem_cons_of_mem _ hv', by rw [← h2, hmate1]⟩
       · intro y hy; exact post.sub y (by simp [hy])
+      · have := post.qlen
+        simp only [List.length_append, List.length_singleton] at this
+        omega
       · intro v' hv'
         rcases List.mem_cons.1 hv' with rfl | hv'
         · rw [post.keep _ (by rw [hs1x]; omega), hs1x]; omega
         · have := hcl v' hv'
-          simpa using this
+          rw [hmate1] at this
+          exact this
     · simp only [hx, if_false]
-      obtain ⟨post, hcl⟩ := ih s q hu
-      refine ⟨post, ?_⟩
-      intro v' hv'
-      rcases List.mem_cons.1 hv' with rfl | hv'
-      · rw [post.keep _ hx]; exact hx
-      · exact hcl v' hv'
+      obtain ⟨post, hcl⟩ := ih s q hinv hu
+      refine ⟨⟨post.mu, post.mv, post.len, post.keep, post.new, ?_, post.sub, post.qlen⟩, ?_⟩
+      · intro y hy hy'
+        obtain ⟨v', hv', h2⟩ := post.newAdj y hy hy'
+        exact ⟨v', List.mem_cons_of_mem _ hv', h2⟩
+      · intro v' hv'
+        rcases List.mem_cons.1 hv' with rfl | hv'
+        · rw [post.keep _ hx]; exact hx
+        · exact hcl v' hv'
 
 /-! ## the queue loop -/
 
@@ -185,14 +274,34 @@ structure BInv (g : BGraph) (s : HK) (q : List (Option Nat)) : Prop where
   len : s.du.length = g.numU
   allLe : ∀ x, s.dist x ≤ infDist g
   free0 : ∀ u, u < g.numU → s.mu.getD u none = none → s.dist (some u) = 0
-  layer : ∀ u, u < g.numU → s.dist (some u) < infDist g →
-    s.dist (some u) = 0 ∨ ∃ u', u' < g.numU ∧ s.dist (some u') + 1 = s.dist (some u)
+  zeroFree : ∀ u, u < g.numU → s.dist (some u) = 0 → s.mu.getD u none = none
+  /-- every finite label of a key is `0` (a vertex) or one more than the label of a predecessor in the
+  alternating BFS forest -/
+  layerAdj : ∀ x, x ∈ validX g → s.dist x < infDist g →
+    (x ≠ none ∧ s.dist x = 0) ∨
+    ∃ u', u' < g.numU ∧ ∃ v ∈ g.adjU.getD u' [], s.mateV v = x ∧ s.dist (some u') + 1 = s.dist x
   pend : s.dnil ≠ infDist g ∨
     ∀ u, u < g.numU → s.dist (some u) ≠ infDist g → some u ∈ q ∨ Closed g s u
 
+theorem BInv.layer {g : BGraph} {s : HK} {q : List (Option Nat)} (inv : BInv g s q) :
+    ∀ u, u < g.numU → s.dist (some u) < infDist g →
+      s.dist (some u) = 0 ∨ ∃ u', u' < g.numU ∧ s.dist (some u') + 1 = s.dist (some u) := by
+  intro u hu hlt
+  rcases inv.layerAdj (some u) (mem_validX.2 (fun w hw => by cases hw; exact hu)) hlt with h | ⟨u', hu', _, _, _, h⟩
+  · exact Or.inl h.2
+  · exact Or.inr ⟨u', hu', h⟩
+
+/-- a label written by the BFS is never the "infinite" one -/
+theorem BInv.label_bound {g : BGraph} {s : HK} {q : List (Option Nat)} (inv : BInv g s q) {u : Nat}
+    (hu : u < g.numU) (h : s.dist (some u) < s.dnil) : s.dist (some u) + 1 < infDist g := by
+  have hdn := inv.allLe none
+  have hlt : s.dist (some u) < infDist g := by simp only [dist_none] at hdn; omega
+  have hb := layer_bound (fun w => s.dist (some w)) inv.layer u hu hlt
+  unfold infDist; omega
+
 theorem BInv.skip {g : BGraph} {s : HK} {x : Option Nat} {q : List (Option Nat)} (inv : BInv g s (x :: q))
     (h : x = none ∨ ¬ s.dist x < s.dnil) : BInv g s q := by
-  refine ⟨inv.minv, inv.len, inv.allLe, inv.free0, inv.layer, ?_⟩
+  refine ⟨inv.minv, inv.len, inv.allLe, inv.free0, inv.zeroFree, inv.layerAdj, ?_⟩
   rcases inv.pend with hp | hp
   · exact Or.inl hp
   · by_cases hn : s.dnil = infDist g
@@ -214,19 +323,16 @@ theorem BInv.step {g : BGraph} (hg : g.WF) {s : HK} {u : Nat} {q : List (Option 
     (inv : BInv g s (some u :: q)) (h : s.dist (some u) < s.dnil) :
     BInv g (bfsNeighbours g u (g.adjU.getD u []) s q).1 (bfsNeighbours g u (g.adjU.getD u []) s q).2 := by
   by_cases hu : u < g.numU
-  · have hdn := inv.allLe none
-    have hlt : s.dist (some u) < infDist g := by simp only [dist_none] at hdn; omega
-    have hb := layer_bound (fun w => s.dist (some w)) inv.layer u hu hlt
-    have hd : s.dist (some u) + 1 < infDist g := by unfold infDist; omega
-    obtain ⟨post, hcl⟩ := bfsNeighbours_post g u _ hd (g.adjU.getD u []) s q rfl
+  · have hd := inv.label_bound hu h
+    obtain ⟨post, hcl⟩ := bfsNeighbours_post g u _ hd (g.adjU.getD u []) s q inv.minv rfl
     generalize (bfsNeighbours g u (g.adjU.getD u []) s q).1 = s' at post hcl ⊢
     generalize (bfsNeighbours g u (g.adjU.getD u []) s q).2 = q' at post ⊢
+    have hmate : ∀ v, s'.mateV v = s.mateV v := by intro v; simp [post.mv]
     have hstable : ∀ w, Closed g s w → Closed g s' w := by
       intro w hw v hv
       have h1 := hw v hv
-      have : s'.mateV v = s.mateV v := by simp [post.mv]
-      rw [this, post.keep _ h1]; exact h1
-    refine ⟨?_, ?_, ?_, ?_, ?_, ?_⟩
+      rw [hmate, post.keep _ h1]; exact h1
+    refine ⟨?_, ?_, ?_, ?_, ?_, ?_, ?_⟩
     · rw [post.mu, post.mv]; exact inv.minv
     · rw [post.len]; exact inv.len
     · intro x
@@ -239,19 +345,28 @@ theorem BInv.step {g : BGraph} (hg : g.WF) {s : HK} {u : Nat} {q : List (Option 
       rw [post.mu] at hfree
       have h0 := inv.free0 w hw hfree
       rw [post.keep _ (by rw [h0]; exact (infDist_pos g).symm), h0]
-    · intro w hw hlt'
+    · intro w hw h0
+      rw [post.mu]
       by_cases hx : s.dist (some w) = infDist g
+      · rcases post.new _ hx with h1 | ⟨h1, _⟩
+        · rw [h1] at h0; exact absurd h0 (infDist_pos g)
+        · omega
+      · rw [post.keep _ hx] at h0
+        exact inv.zeroFree w hw h0
+    · intro x hval hlt'
+      by_cases hx : s.dist x = infDist g
       · rcases post.new _ hx with h1 | ⟨h1, _⟩
         · omega
         · right
-          refine ⟨u, hu, ?_⟩
+          obtain ⟨v, hv, hvx⟩ := post.newAdj x hx (by omega)
+          refine ⟨u, hu, v, hv, by rw [hmate]; exact hvx, ?_⟩
           rw [post.keep _ (by omega), h1]
       · have hwk := post.keep _ hx
         rw [hwk] at hlt' ⊢
-        rcases inv.layer w hw hlt' with h0 | ⟨w', hw', h1⟩
+        rcases inv.layerAdj x hval hlt' with h0 | ⟨w', hw', v, hv, hvx, h1⟩
         · exact Or.inl h0
         · right
-          refine ⟨w', hw', ?_⟩
+          refine ⟨w', hw', v, hv, by rw [hmate]; exact hvx, ?_⟩
           rw [post.keep _ (by omega)]; exact h1
     · rcases inv.pend with hp | hp
       · left
@@ -270,8 +385,7 @@ theorem BInv.step {g : BGraph} (hg : g.WF) {s : HK} {u : Nat} {q : List (Option 
               · cases h2
                 right
                 intro v hv
-                have : s'.mateV v = s.mateV v := by simp [post.mv]
-                rw [this]
+                rw [hmate]
                 exact hcl v hv
               · exact Or.inl (post.sub _ h2)
             · exact Or.inr (hstable w h1)
@@ -279,7 +393,7 @@ theorem BInv.step {g : BGraph} (hg : g.WF) {s : HK} {u : Nat} {q : List (Option 
   · -- out-of-range queue entry: no neighbours
     have hadj : g.adjU.getD u [] = [] := getD_of_length_le _ _ (by rw [hg.lenU]; omega)
     rw [hadj, bfsNeighbours]
-    refine ⟨inv.minv, inv.len, inv.allLe, inv.free0, inv.layer, ?_⟩
+    refine ⟨inv.minv, inv.len, inv.allLe, inv.free0, inv.zeroFree, inv.layerAdj, ?_⟩
     rcases inv.pend with hp | hp
     · exact Or.inl hp
     · right
@@ -289,6 +403,17 @@ theorem BInv.step {g : BGraph} (hg : g.WF) {s : HK} {u : Nat} {q : List (Option 
         · cases h2; exact absurd hw hu
         · exact Or.inl h2
       · exact Or.inr h1
+
+/-- one iteration does not increase `|queue| + #inf` (and removes the head) -/
+theorem bfs_step_count {g : BGraph} (hg : g.WF) {s : HK} {u : Nat} {q : List (Option Nat)}
+    (inv : BInv g s (some u :: q)) (h : s.dist (some u) < s.dnil) :
+    (bfsNeighbours g u (g.adjU.getD u []) s q).2.length + cntInf g (bfsNeighbours g u (g.adjU.getD u []) s q).1
+      ≤ q.length + cntInf g s := by
+  by_cases hu : u < g.numU
+  · have hd := inv.label_bound hu h
+    exact (bfsNeighbours_post g u _ hd (g.adjU.getD u []) s q inv.minv rfl).1.qlen
+  · have hadj : g.adjU.getD u [] = [] := getD_of_length_le _ _ (by rw [hg.lenU]; omega)
+    rw [hadj, bfsNeighbours]
 
 theorem bfsLoop_inv {g : BGraph} (hg : g.WF) : ∀ (fuel : Nat) (s : HK) (q : List (Option Nat)) (s' : HK),
     BInv g s q → bfsLoop g fuel s q = .ok s' → BInv g s' [] := by
@@ -314,6 +439,33 @@ theorem bfsLoop_inv {g : BGraph} (hg : g.WF) : ∀ (fuel : Nat) (s : HK) (q : Li
         · rename_i hlt
           exact ih _ _ _ (inv.skip (Or.inr hlt)) h
 
+/-- the BFS fuel suffices -/
+theorem bfsLoop_ok {g : BGraph} (hg : g.WF) : ∀ (fuel : Nat) (s : HK) (q : List (Option Nat)),
+    BInv g s q → q.length + cntInf g s ≤ fuel → ∃ s', bfsLoop g fuel s q = .ok s' := by
+  intro fuel
+  induction fuel with
+  | zero =>
+    intro s q inv h
+    cases q with
+    | nil => exact ⟨s, bfsLoop_nil ..⟩
+    | cons x q => simp at h
+  | succ fuel ih =>
+    intro s q inv h
+    cases q with
+    | nil => exact ⟨s, bfsLoop_nil ..⟩
+    | cons x q =>
+      simp only [List.length_cons] at h
+      cases x with
+      | none => rw [bfsLoop_succ_none]; exact ih _ _ (inv.skip (Or.inl rfl)) (by omega)
+      | some u =>
+        rw [bfsLoop_succ_some]
+        split
+        · rename_i hlt
+          have := bfs_step_count hg inv hlt
+          exact ih _ _ (inv.step hg hlt) (by omega)
+        · rename_i hlt
+          exact ih _ _ (inv.skip (Or.inr hlt)) (by omega)
+
 theorem BInv.init {g : BGraph} {s : HK} (hinv : MInv g s.mu s.mv) : BInv g (bfsInit g s).1 (bfsInit g s).2 := by
   rw [bfsInit_eq]
   have hdist : ∀ w, w < g.numU → (List.map (fun u => if (s.mu.getD u none).isNone = true then 0 else infDist g)
@@ -321,7 +473,7 @@ theorem BInv.init {g : BGraph} {s : HK} (hinv : MInv g s.mu s.mv) : BInv g (bfsI
     intro w hw
     rw [List.getD_eq_getElem?_getD, List.getElem?_map, List.getElem?_range hw]
     rfl
-  refine ⟨hinv, by simp, ?_, ?_, ?_, ?_⟩
+  refine ⟨hinv, by simp, ?_, ?_, ?_, ?_, ?_⟩
   · intro x
     cases x with
     | none => exact Nat.le_refl _
@@ -333,12 +485,25 @@ theorem BInv.init {g : BGraph} {s : HK} (hinv : MInv g s.mu s.mv) : BInv g (bfsI
   · intro w hw hfree
     simp only [dist_some]
     rw [hdist w hw, hfree]; rfl
-  · intro w hw hlt
-    simp only [dist_some] at hlt ⊢
-    rw [hdist w hw] at hlt ⊢
-    split at hlt
-    · rename_i h; left; rw [if_pos h]
-    · omega
+  · intro w hw h0
+    simp only [dist_some] at h0
+    rw [hdist w hw] at h0
+    split at h0
+    · rename_i h
+      cases hh : s.mu.getD w none with
+      | none => rfl
+      | some v => rw [hh] at h; cases h
+    · exact absurd h0 (infDist_pos g)
+  · intro x hval hlt
+    cases x with
+    | none => simp only [dist_none] at hlt; omega
+    | some w =>
+      have hw := mem_validX.1 hval w rfl
+      simp only [dist_some] at hlt ⊢
+      rw [hdist w hw] at hlt ⊢
+      split at hlt
+      · rename_i h; left; exact ⟨by simp, by rw [if_pos h]⟩
+      · omega
   · right
     intro w hw hd
     left
@@ -348,6 +513,27 @@ theorem BInv.init {g : BGraph} {s : HK} (hinv : MInv g s.mu s.mv) : BInv g (bfsI
     by_contra hc
     simp only [hc] at hd
     exact hd rfl
+
+/-- `__connect_unmatched_vertices` never runs out of fuel -/
+theorem connectUnmatched_ok' {g : BGraph} (hg : g.WF) {s : HK} (hinv : MInv g s.mu s.mv) :
+    ∃ s1 b, connectUnmatched g s = .ok (s1, b) := by
+  have hq : (bfsInit g s).2.length ≤ g.numU := by
+    rw [bfsInit_eq]
+    simp only [List.length_map]
+    have := List.length_filter_le (fun u => (s.mu.getD u none).isNone) (List.range g.numU)
+    simpa using this
+  have hc := cntInf_le g (bfsInit g s).1
+  have hf : (bfsInit g s).2.length + cntInf g (bfsInit g s).1 ≤ bfsFuel g := by
+    unfold bfsFuel
+    have : (g.numU + 2) * 2 ≤ (g.numU + 2) * (g.numU + 2) := Nat.mul_le_mul_left _ (by omega)
+    omega
+  obtain ⟨s1, h1⟩ := bfsLoop_ok hg _ _ _ (BInv.init hinv) hf
+  refine ⟨s1, s1.dnil != infDist g, ?_⟩
+  unfold connectUnmatched
+  simp only [bind, Except.bind, pure, Except.pure]
+  have : bfsInit g s = ((bfsInit g s).1, (bfsInit g s).2) := rfl
+  rw [this]
+  simp only [h1]
 
 /-- The final (unsuccessful) BFS: the vertices with a finite label form a closed set. -/
 theorem bfs_final_closed {g : BGraph} (hg : g.WF) {sp s : HK} (hinv : MInv g sp.mu sp.mv)
